@@ -497,6 +497,24 @@ func c08Ring(t *rapid.T, ev *evProp) {
 	} else if len(tag) != 0 {
 		violationOrKnown(t, ev, "C08/ring/"+name+"/tag", "unlinkable signature returned a tag\n%s", ctx)
 	}
+	if scope != nil {
+		// the tag is a value of the verified signature: bytes that follow the signature in the caller's
+		// buffer are not part of it, and the tag stays what it is when the caller reuses the buffer
+		tagCopy := append([]byte(nil), tag...)
+		ext := append(append([]byte(nil), sig...), rapid.SliceOfN(rapid.Byte(), 1, 2*len(tag)+3).Draw(t, "trail")...)
+		if etag, err := anon.Verify(suite, msg, ring, scope, ext); err == nil && !bytes.Equal(etag, tagCopy) {
+			violationOrKnown(t, ev, "C08/ring/"+name+"/tag", "the signature followed by %d more bytes is accepted with tag %x instead of %x\n%s", len(ext)-len(sig), etag, tagCopy, ctx)
+		}
+		buf := append([]byte(nil), sig...)
+		if t2, err := anon.Verify(suite, msg, ring, scope, buf); err == nil {
+			for i := range buf {
+				buf[i] ^= 0xa5
+			}
+			if !bytes.Equal(t2, tagCopy) {
+				violationOrKnown(t, ev, "C08/ring/"+name+"/tag", "the returned tag changed to %x when the caller overwrote the signature buffer (was %x)\n%s", t2, tagCopy, ctx)
+			}
+		}
+	}
 	mut := rapid.SampledFrom([]string{"msg", "replace-member", "permute-ring", "scope", "sigbitflip", "sigbitflip", "sigbitflip", "truncate", "link-same", "link-otherkey", "link-otherscope", "drop-member"}).Draw(t, "mut")
 	expectReject := true
 	var verr error
